@@ -407,12 +407,7 @@ def toF (st : AttrState) : Fmt.AStore :=
 
 theorem conv_fmt (d : List (Str × Option Str)) : conv (some []) id d = forget (fun _ => some []) d := rfl
 
-/-- The values the formatter's intake strips with `pyStrip`: those given for `class` and `style`. -/
-def FmtDomain (l : List Attr) : Prop :=
-  ∀ p ∈ l, (lower p.1 = kClass ∨ lower p.1 = kStyle) → NoUniWs (p.2.getD [])
-
-theorem set_toF {st : AttrState} (h : Inv st) (p : Attr)
-    (hp : (lower p.1 = kClass ∨ lower p.1 = kStyle) → NoUniWs (p.2.getD [])) :
+theorem set_toF {st : AttrState} (h : Inv st) (p : Attr) :
     (toF st).set p.1 p.2 = toF (intakeStep st p) := by
   have hd : (keys (toF st).dict).Nodup := by simp only [toF, keys_conv]; exact h
   obtain ⟨k0, v⟩ := p
@@ -422,11 +417,11 @@ theorem set_toF {st : AttrState} (h : Inv st) (p : Attr)
   | false => simp only [Bool.not_false, if_true, Bool.false_eq_true, if_false]
   | true =>
   simp only [Bool.not_true, Bool.false_eq_true, if_false, if_true]
-  generalize hk : lower k0 = k at hp
+  generalize hk : lower k0 = k
   by_cases h1 : k = kStyle
   · subst h1
     rw [set_style]
-    simp only [if_true, styleToDict_fmt_twice (hp (Or.inr rfl)), fdel_eq, fset_eq _ _ hd]
+    simp only [if_true, styleToDict_fmt_twice, fdel_eq, fset_eq _ _ hd]
     simp only [toF]
     split
     · simp only [conv_del]
@@ -434,7 +429,7 @@ theorem set_toF {st : AttrState} (h : Inv st) (p : Attr)
   by_cases h2 : k = kClass
   · subst h2
     rw [set_class]
-    simp only [class_ne_style, if_false, if_true, toF, classNames_fmt (hp (Or.inl rfl)), classNamesOf_getD]
+    simp only [class_ne_style, if_false, if_true, toF, classNames_fmt, classNamesOf_getD]
   by_cases h3 : k = kSpell
   · subst h3
     rw [set_spell]
@@ -444,14 +439,14 @@ theorem set_toF {st : AttrState} (h : Inv st) (p : Attr)
     simp only [h1, h2, h3, if_false, fmt_boolStr, contains_single, decide_false, Bool.false_eq_true, fset_eq _ _ hd]
     simp only [toF, conv_set_ne _ _ _ h1, id]
 
-theorem mkStore_toF : ∀ (l : List Attr) {st : AttrState}, Inv st → FmtDomain l →
+theorem mkStore_toF : ∀ (l : List Attr) {st : AttrState}, Inv st →
     Fmt.mkStore l (toF st) = toF (intake l st)
-  | [], _, _, _ => rfl
-  | (k, v) :: r, st, h, hl => by
+  | [], _, _ => rfl
+  | (k, v) :: r, st, h => by
     rw [intake_cons]
     unfold Fmt.mkStore
-    rw [set_toF h (k, v) (hl (k, v) (List.mem_cons_self ..))]
-    exact mkStore_toF r (inv_step h _) (fun p hp => hl p (List.mem_cons_of_mem _ hp))
+    rw [set_toF h (k, v)]
+    exact mkStore_toF r (inv_step h _)
 
 theorem empty_toF : ({} : Fmt.AStore) = toF AttrState.empty := rfl
 
@@ -467,29 +462,5 @@ theorem items_toF {st : AttrState} (h : Inv st) : (toF st).items = st.view := by
     · exact nodup_dictSet _ _ hd
   rw [fset_eq _ _ hd1, styleStr_fmt]
   rfl
-
-/-! ### ASCII input is in the formatter's common domain -/
-
-def Ascii (s : Str) : Prop := ∀ c ∈ s, c.toNat < 128
-
-instance (s : Str) : Decidable (Ascii s) := by unfold Ascii; infer_instance
-
-theorem noUniWs_of_ascii {s : Str} (h : Ascii s) : NoUniWs s := by
-  intro c hc
-  have hlt := h c hc
-  unfold Fmt.pyWs
-  have e1 : decide (c.toNat = 0x85) = false := decide_eq_false (by omega)
-  have e2 : decide (c.toNat = 0xa0) = false := decide_eq_false (by omega)
-  have e3 : decide (c.toNat = 0x1680) = false := decide_eq_false (by omega)
-  have e4 : decide (0x2000 ≤ c.toNat) = false := decide_eq_false (by omega)
-  have e5 : decide (c.toNat = 0x2028) = false := decide_eq_false (by omega)
-  have e6 : decide (c.toNat = 0x2029) = false := decide_eq_false (by omega)
-  have e7 : decide (c.toNat = 0x202f) = false := decide_eq_false (by omega)
-  have e8 : decide (c.toNat = 0x205f) = false := decide_eq_false (by omega)
-  have e9 : decide (c.toNat = 0x3000) = false := decide_eq_false (by omega)
-  simp only [e1, e2, e3, e4, e5, e6, e7, e8, e9, Bool.or_false, Bool.false_and]
-
-theorem fmtDomain_of_ascii {l : List Attr} (h : ∀ p ∈ l, Ascii (p.2.getD [])) : FmtDomain l :=
-  fun p hp _ => noUniWs_of_ascii (h p hp)
 
 end AHP.AttrStores
